@@ -253,7 +253,9 @@ def trace_validation(ctx, rekey, quick):
     # ---- binding controls: corrupted copies must be rejected ----
     good = [r['trace'] for r in recs if r['nkex'] >= 2 and
             any(e['ndef'] > 0 for e in r['trace']['ev'])][:4]
-    if len(good) < 4 and (ctx.violations or ctx.divergences):
+    if ctx.violations or ctx.divergences:
+        # (on a tree that misbehaves the recorded traces are not the
+        # material the controls are designed for; the verdict is exit 1)
         ctx.notes.append('binding controls skipped: recorded traces were '
                          'rejected (see violations / divergences)')
         ctx.traces_validated(len(recs))
